@@ -28,9 +28,9 @@ CHECKS = {
              "what": "ml::tune with a W-worker pool: callback exactly once per (trial, fold) with the fold's indices, "
                      "statistics/extra stored under the right (trial, fold), optimum trial, schedule-independent result"},
             {"name": "tune-sched-w3", "harness": "c13_tune_sched", "crash_is_violation": True, "tiers": ["thorough"], "share": 0.3,
-             "args": ["--budget", "1", "--maxfolds", "3", "--maxW", "3"],
-             "what": "the same with up to 3 workers and 1 preemption (3 workers x 2 preemptions did not complete within the "
-                     "deadline and is not claimed)"},
+             "args": ["--budget", "1", "--maxfolds", "2", "--maxW", "3"],
+             "what": "the same with up to 3 workers, 2 folds and 1 preemption (3 workers with 2 preemptions or with 3 folds did not "
+                     "complete within the deadline and are not claimed)"},
         ],
     },
 }
